@@ -1,5 +1,6 @@
 import Swat4.Lemmas.Rest
 import Swat4.Lemmas.RestBody
+import Swat4.Lemmas.RestSlug
 import Swat4.Lemmas.Styles
 import Swat4.Lemmas.Clean
 import Swat4.Model.Rest
@@ -109,10 +110,10 @@ theorem add_table (ip : IP4) (port : Int) (st : SrvState) :
 /-- non-vacuity of every row: fresh address, details, pending, no port, other -/
 example : (addServerIP ⟨1, 1, 1, 1⟩ 10480 .absent).status = 202 := by rfl
 example : (addServerIP ⟨1, 1, 1, 1⟩ 65535 .absent).effect = .discover true ⟨⟨1, 1, 1, 1⟩, 65535⟩ 65535 128 := by rfl
-example : (addServerIP ⟨1, 1, 1, 1⟩ 10480 (.present 8 10481 [])).status = 200 := by rfl
-example : (addServerIP ⟨1, 1, 1, 1⟩ 10480 (.present 128 10481 [])).status = 202 := by rfl
-example : (addServerIP ⟨1, 1, 1, 1⟩ 10480 (.present 256 10481 [])).status = 410 := by rfl
-example : (addServerIP ⟨1, 1, 1, 1⟩ 10480 (.present 1 10481 [])).effect = .discover false ⟨⟨1, 1, 1, 1⟩, 10480⟩ 10481 128 := by rfl
+example : (addServerIP ⟨1, 1, 1, 1⟩ 10480 (.present 8 10481 (hostRec []))).status = 200 := by rfl
+example : (addServerIP ⟨1, 1, 1, 1⟩ 10480 (.present 128 10481 (hostRec []))).status = 202 := by rfl
+example : (addServerIP ⟨1, 1, 1, 1⟩ 10480 (.present 256 10481 (hostRec []))).status = 410 := by rfl
+example : (addServerIP ⟨1, 1, 1, 1⟩ 10480 (.present 1 10481 (hostRec []))).effect = .discover false ⟨⟨1, 1, 1, 1⟩, 10480⟩ 10481 128 := by rfl
 example : (addServerIP ⟨10, 0, 0, 1⟩ 10480 .absent).status = 400 := by rfl
 example : (addServerIP ⟨1, 1, 1, 1⟩ 1024 .absent).status = 400 := by rfl
 
@@ -140,9 +141,9 @@ theorem view_table (ip : IP4) (port : Int) (st : SrvState) :
     simp [badRequest, RestSpec.viewTable, RestSpec.viewStatuses]
 
 example : (viewServerIP ⟨1, 1, 1, 1⟩ 10480 .absent).status = 404 := by rfl
-example : (viewServerIP ⟨1, 1, 1, 1⟩ 10480 (.present 4 10481 [])).status = 204 := by rfl
-example : (viewServerIP ⟨1, 1, 1, 1⟩ 10480 (.present 8 10481 [])).status = 200 := by rfl
-example : (viewServerIP ⟨192, 168, 0, 1⟩ 10480 (.present 8 10481 [])).status = 400 := by rfl
+example : (viewServerIP ⟨1, 1, 1, 1⟩ 10480 (.present 4 10481 (hostRec []))).status = 204 := by rfl
+example : (viewServerIP ⟨1, 1, 1, 1⟩ 10480 (.present 8 10481 (hostRec []))).status = 200 := by rfl
+example : (viewServerIP ⟨192, 168, 0, 1⟩ 10480 (.present 8 10481 (hostRec []))).status = 400 := by rfl
 
 /-- **Nothing is stored or queued for an excluded address.**  For an address in any of the
 excluded classes both handlers answer 400 and leave registry and probe queue unchanged, whatever
@@ -317,24 +318,28 @@ example : RestSpec.NoCodes "[i]x[c".toList = true := by decide
 
 /-! ## the body of a 200 ("200 with the stored data")
 
-**Which part of the JSON body the model covers.**  `Resp.body` carries exactly two members of
-`model.Server` (`/repo/internal/rest/model/server.go:16-44`): `hostname_html` and `hostname_plain`
-(`NewServerFromDomain`, `server.go:53-54`: `styles.Clean(hostname)`, `styles.ToHTML(hostname)` of
-`s.Info.Hostname`).  `POST /api/servers` answers 200 with a `model.Server` (`servers_add.go:48`),
-`GET /api/servers/:address` with a `model.ServerDetail` whose member `info` is that `model.Server`
-(`servers_view.go:50`, `server.go:147-151`, `:172`); the harness reads the two members from the top level
-resp. from `info` (`harness/internal/c17/c17.go`, `execHTTP`) and the driver compares them with the
-model byte for byte (`Drv/C17.lean`, `renderResp`).  `body = none` means: the answer has neither
-member (`~ ~` on the line) — a 400 does have a JSON body, `{"error":"Invalid server address"}`, which
-carries no server data and is not modelled.
+**What the model covers.**  `Resp.body` carries the whole server data of the answer:
+`POST /api/servers` answers 200 with a `model.Server` (`servers_add.go:48`; `RespBody.server`),
+`GET /api/servers/:address` with a `model.ServerDetail` (`servers_view.go:50`; `RespBody.detail`:
+`info` = that `model.Server`, `players`, `objectives`), `GET /api/servers` with `[]model.Server`
+(`servers_list.go:58-62`; `RespBody.list`).  `Rest.ServerJson`, `PlayerJson`, `ObjectiveJson`,
+`ServerDetailJson` mirror the Go structs of `/repo/internal/rest/model/server.go` member by member,
+`serverJsonOf` / `playerJsonOf` / `objectiveJsonOf` / `serverDetailJsonOf` the four constructors line
+by line, `ServerJson.members` etc. what `encoding/json` writes (tags in field order, pinned in
+`facts_json_ok`).  The harness returns the whole body as one canonical token
+(`harness/internal/c17/canon.go`: every member in document order, so an added, dropped, renamed or
+reordered member shows), the driver compares it with the model's rendering member by member and
+checks it against the planted record through `RestSpec.serverWants` / `playerWants` /
+`objectiveWants` (`Drv/C17.lean`, `bodyOracle`).  `body = none` means: the answer carries no server
+data — it is empty, or it is the `{"error":"Invalid server address"}` of a 400 (compared by the driver
+as a literal, `Drv.C17.errorBody`).
 
-**Not covered**, neither by the model nor by the driver's comparison: the other 25 members of
-`model.Server` (`address`, `ip`, `port`, the raw `hostname`, `passworded`, `gamename`, `gamever`,
-`gametype`, `gametype_slug`, `mapname`, `mapname_slug`, `player_num`, `player_max`, `round_num`,
-`round_max`, `time_round`, `time_special`, `score_swat`, `score_sus`, `vict_swat`, `vict_sus`,
-`bombs_defused`, `bombs_total`, `coop_reports`, `coop_weapons`) and the `players` / `objectives`
-arrays of `model.ServerDetail`.  The harness does not read them from the answer, and the planted
-record has only address, query port, status word and hostname set.
+**Modelled subset of the derived members.**  `gametype_slug`, `mapname_slug`, `coop_status_slug`,
+`status_slug` are `slug.Make` of a string; `Slug.make` reproduces it for strings over ASCII, Latin-1
+(U+0080..U+00FF, `unidecode`'s table copied), the five code points of `defaultSub` beyond Latin-1 and
+code points ≥ U+10000 (dropped); for any other string the member is `none` (rendered `?`, not
+compared; the oracle still requires the shape of a slug).  `slug_facts_ok` ties the model to the
+library's behaviour character by character.
 
 Also outside the model (assumption "storage is healthy"): `getserver.ErrUnableToObtainServer`
 (`getserver.go:39`, any repository error other than not-found) has no case in the switch of
@@ -353,24 +358,42 @@ port, any decoded JSON body the model answers -/
 def AddAnswer (st : SrvState) (r : Resp) : Prop :=
   (∃ a, r = addExecute a st) ∨ (∃ ip port, r = addServerIP ip port st) ∨ (∃ body, addServer body st = some r)
 
-/-- **The data of a 200 is the stored data, and only a 200 has data.**  If the status is 200 the
+/-- **The data of a 200 is the stored data, and only a 200 has data** (the two hostname members;
+`StoredDetail` / `StoredServer` below say the same of the whole body).  If the status is 200 the
 addressed record exists, its status word has the details bit (8), `hostname_html` is
-`Styles.toHTML` and `hostname_plain` is `Styles.clean` of the hostname stored in that record, and
-nothing is stored or queued; if the status is anything else the answer carries neither member. -/
+`Styles.toHTML` and `hostname_plain` is `Styles.clean` of the hostname stored in that record
+(`rec.info.hostname`: `server.Server.Info.Hostname`), and nothing is stored or queued; if the status
+is anything else the answer carries no server data. -/
 def StoredBody (st : SrvState) (r : Resp) : Prop :=
   (r.status = 200 →
-    ∃ w qp h, st = .present w qp h ∧ w &&& 8 ≠ 0 ∧
-      r.body = some (Styles.toHTML h, Styles.clean h) ∧ r.effect = .none) ∧
+    ∃ w qp rec, st = .present w qp rec ∧ w &&& 8 ≠ 0 ∧
+      r.hostnames = some (Styles.toHTML rec.info.hostname, Styles.clean rec.info.hostname) ∧ r.effect = .none) ∧
   (r.status ≠ 200 → r.body = none)
 
-/-- **"200 with the stored data", `GET`** — for every route of the model (`viewExecute st`,
-`viewServerIP ip port st`, `viewServer address st = some r`): a 200 answer is made from the stored
-hostname `h` of a record with the details bit (`hostname_html = toHTML h`, `hostname_plain =
-clean h`); a 204, 404 or 400 carries no server data.  Covers the two hostname members only — see
-the section comment for the members of `model.Server` outside the model. -/
-theorem view_body (st : SrvState) (r : Resp) (hr : ViewAnswer st r) : StoredBody st r := by
-  have hbad : StoredBody st badRequest := by simp [StoredBody, badRequest]
-  have hex : StoredBody st (viewExecute st) := viewExecute_body st
+/-- the whole body of a `GET /api/servers/:address`: a 200 comes from a stored record with the
+details bit and its body is the `model.ServerDetail` made from exactly that record; nothing is
+stored or queued; any other status carries no server data -/
+def StoredDetail (st : SrvState) (r : Resp) : Prop :=
+  (r.status = 200 →
+    ∃ w qp rec, st = .present w qp rec ∧ w &&& 8 ≠ 0 ∧
+      r.body = some (.detail (serverDetailJsonOf rec)) ∧ r.effect = .none) ∧
+  (r.status ≠ 200 → r.body = none)
+
+/-- the same for `POST /api/servers` with `model.Server` -/
+def StoredServer (st : SrvState) (r : Resp) : Prop :=
+  (r.status = 200 →
+    ∃ w qp rec, st = .present w qp rec ∧ w &&& 8 ≠ 0 ∧
+      r.body = some (.server (serverJsonOf rec)) ∧ r.effect = .none) ∧
+  (r.status ≠ 200 → r.body = none)
+
+/-- **"200 with the stored data", every member, `GET`** — for every route of the model
+(`viewExecute st`, `viewServerIP ip port st`, `viewServer address st = some r`): the body of a 200 is
+`serverDetailJsonOf` of the record stored under the address (`info`, `players`, `objectives`; what
+each member is: `server_members`, `player_members`, `objective_members`, `detail_members`); a 204, 404
+or 400 carries no server data. -/
+theorem view_body_full (st : SrvState) (r : Resp) (hr : ViewAnswer st r) : StoredDetail st r := by
+  have hbad : StoredDetail st badRequest := by simp [StoredDetail, badRequest]
+  have hex : StoredDetail st (viewExecute st) := viewExecute_full st
   rcases hr with rfl | ⟨ip, port, rfl⟩ | ⟨address, h⟩
   · exact hex
   · unfold viewServerIP
@@ -383,13 +406,13 @@ theorem view_body (st : SrvState) (r : Resp) (hr : ViewAnswer st r) : StoredBody
     · cases h; exact hbad
     · cases h
 
-/-- **"200 with the stored data", `POST`** — for every route of the model (`addExecute a st`,
-`addServerIP ip port st`, `addServer body st = some r`): a 200 answer is made from the stored
-hostname of a record with the details bit and nothing is stored or queued (`effect = .none`); a
-202, 410 or 400 carries no server data.  Same coverage of members as `view_body`. -/
-theorem add_body (st : SrvState) (r : Resp) (hr : AddAnswer st r) : StoredBody st r := by
-  have hbad : StoredBody st badRequest := by simp [StoredBody, badRequest]
-  have hex : ∀ a, StoredBody st (addExecute a st) := fun a => addExecute_body a st
+/-- **"200 with the stored data", every member, `POST`** — for every route of the model
+(`addExecute a st`, `addServerIP ip port st`, `addServer body st = some r`): the body of a 200 is
+`serverJsonOf` of the record stored under the address and nothing is stored or queued; a 202, 410
+or 400 carries no server data. -/
+theorem add_body_full (st : SrvState) (r : Resp) (hr : AddAnswer st r) : StoredServer st r := by
+  have hbad : StoredServer st badRequest := by simp [StoredServer, badRequest]
+  have hex : ∀ a, StoredServer st (addExecute a st) := fun a => addExecute_full a st
   rcases hr with ⟨a, rfl⟩ | ⟨ip, port, rfl⟩ | ⟨body, h⟩
   · exact hex a
   · unfold addServerIP
@@ -404,43 +427,417 @@ theorem add_body (st : SrvState) (r : Resp) (hr : AddAnswer st r) : StoredBody s
     · cases h; exact hbad
     · cases h
 
+/-- **"200 with the stored data", `GET`** — for every route of the model (`viewExecute st`,
+`viewServerIP ip port st`, `viewServer address st = some r`): a 200 answer is made from the stored
+hostname `h` of a record with the details bit (`hostname_html = toHTML h`, `hostname_plain =
+clean h`); a 204, 404 or 400 carries no server data.  The two hostname members; the whole body:
+`view_body_full`. -/
+theorem view_body (st : SrvState) (r : Resp) (hr : ViewAnswer st r) : StoredBody st r := by
+  have h := view_body_full st r hr
+  refine ⟨fun h2 => ?_, h.2⟩
+  obtain ⟨w, qp, rec, hst, hw, hb, he⟩ := h.1 h2
+  exact ⟨w, qp, rec, hst, hw, by simp only [Resp.hostnames, hb]; rfl, he⟩
+
+/-- **"200 with the stored data", `POST`** — for every route of the model (`addExecute a st`,
+`addServerIP ip port st`, `addServer body st = some r`): a 200 answer is made from the stored
+hostname of a record with the details bit and nothing is stored or queued (`effect = .none`); a
+202, 410 or 400 carries no server data.  The whole body: `add_body_full`. -/
+theorem add_body (st : SrvState) (r : Resp) (hr : AddAnswer st r) : StoredBody st r := by
+  have h := add_body_full st r hr
+  refine ⟨fun h2 => ?_, h.2⟩
+  obtain ⟨w, qp, rec, hst, hw, hb, he⟩ := h.1 h2
+  exact ⟨w, qp, rec, hst, hw, by simp only [Resp.hostnames, hb]; rfl, he⟩
+
 /-- **Every 200 of either handler has inert markup and a code-free plain name**: the answer has
 both members, `hostname_html` is accepted by the reference tokenizer and `hostname_plain` contains
 no style code (`view_body` / `add_body` with `toHTML_inert` / `clean_no_codes`). -/
 theorem view_body_inert (st : SrvState) (r : Resp) (hr : ViewAnswer st r ∨ AddAnswer st r)
     (h200 : r.status = 200) :
-    ∃ html plain, r.body = some (html, plain) ∧
+    ∃ html plain, r.hostnames = some (html, plain) ∧
       RestSpec.Inert html = true ∧ RestSpec.NoCodes plain = true := by
   have hb : StoredBody st r := hr.elim (view_body st r) (add_body st r)
-  obtain ⟨_, _, h, _, _, hbody, _⟩ := hb.1 h200
-  exact ⟨_, _, hbody, toHTML_inert h, clean_no_codes h⟩
+  obtain ⟨_, _, rec, _, _, hbody, _⟩ := hb.1 h200
+  exact ⟨_, _, hbody, toHTML_inert rec.info.hostname, clean_no_codes rec.info.hostname⟩
 
 /-- non-vacuity: a stored hostname with a colour code and `<`, through every route; the 200
 premise holds, the body is the escaped / cleaned stored name, the other rows have no body -/
-example : (viewServerIP ⟨1, 1, 1, 1⟩ 10480 (.present 8 10481 "[c=ff0000]a<b".toList)).status = 200 := by rfl
-example : (viewServerIP ⟨1, 1, 1, 1⟩ 10480 (.present 8 10481 "[c=ff0000]a<b".toList)).body =
+example : (viewServerIP ⟨1, 1, 1, 1⟩ 10480 (.present 8 10481 (hostRec "[c=ff0000]a<b".toList))).status = 200 := by rfl
+example : (viewServerIP ⟨1, 1, 1, 1⟩ 10480 (.present 8 10481 (hostRec "[c=ff0000]a<b".toList))).hostnames =
     some ("<span style=\"color:#ff0000;\">a&lt;b</span>".toList, "a<b".toList) := by decide
-example : (viewExecute (.present (8 ||| 16 ||| 256) 10481 "[c=ff0000]a<b".toList)).body =
+example : (viewExecute (.present (8 ||| 16 ||| 256) 10481 (hostRec "[c=ff0000]a<b".toList))).hostnames =
     some ("<span style=\"color:#ff0000;\">a&lt;b</span>".toList, "a<b".toList) := by decide
-example : ((viewServer (Bytes.ofAscii "1.1.1.1:10480") (.present 8 10481 "[c=ff0000]a<b".toList)).map (·.body)) =
+example : ((viewServer (Bytes.ofAscii "1.1.1.1:10480") (.present 8 10481 (hostRec "[c=ff0000]a<b".toList))).map (·.hostnames)) =
     some (some ("<span style=\"color:#ff0000;\">a&lt;b</span>".toList, "a<b".toList)) := by decide
-example : (addServerIP ⟨1, 1, 1, 1⟩ 10480 (.present 8 10481 "[c=ff0000]a<b".toList)).status = 200 := by rfl
-example : (addServerIP ⟨1, 1, 1, 1⟩ 10480 (.present 8 10481 "[c=ff0000]a<b".toList)).body =
+example : (addServerIP ⟨1, 1, 1, 1⟩ 10480 (.present 8 10481 (hostRec "[c=ff0000]a<b".toList))).status = 200 := by rfl
+example : (addServerIP ⟨1, 1, 1, 1⟩ 10480 (.present 8 10481 (hostRec "[c=ff0000]a<b".toList))).hostnames =
     some ("<span style=\"color:#ff0000;\">a&lt;b</span>".toList, "a<b".toList) := by decide
 example : ((addServer (.obj (.str (Bytes.ofAscii "1.1.1.1")) (.int 10480))
-      (.present 8 10481 "[c=ff0000]a<b".toList)).map (·.body)) =
+      (.present 8 10481 (hostRec "[c=ff0000]a<b".toList))).map (·.hostnames)) =
     some (some ("<span style=\"color:#ff0000;\">a&lt;b</span>".toList, "a<b".toList)) := by decide
-example : ViewAnswer (.present 8 10481 "[c=ff0000]a<b".toList)
-    (viewServerIP ⟨1, 1, 1, 1⟩ 10480 (.present 8 10481 "[c=ff0000]a<b".toList)) := .inr (.inl ⟨_, _, rfl⟩)
-example : AddAnswer (.present 8 10481 "[c=ff0000]a<b".toList)
-    (addServerIP ⟨1, 1, 1, 1⟩ 10480 (.present 8 10481 "[c=ff0000]a<b".toList)) := .inr (.inl ⟨_, _, rfl⟩)
+example : ViewAnswer (.present 8 10481 (hostRec "[c=ff0000]a<b".toList))
+    (viewServerIP ⟨1, 1, 1, 1⟩ 10480 (.present 8 10481 (hostRec "[c=ff0000]a<b".toList))) := .inr (.inl ⟨_, _, rfl⟩)
+example : AddAnswer (.present 8 10481 (hostRec "[c=ff0000]a<b".toList))
+    (addServerIP ⟨1, 1, 1, 1⟩ 10480 (.present 8 10481 (hostRec "[c=ff0000]a<b".toList))) := .inr (.inl ⟨_, _, rfl⟩)
 -- no data in 204 / 404 / 400 / 202 / 410, whatever hostname is stored
-example : (viewServerIP ⟨1, 1, 1, 1⟩ 10480 (.present 4 10481 "[c=ff0000]a<b".toList)).body = none := by rfl
+example : (viewServerIP ⟨1, 1, 1, 1⟩ 10480 (.present 4 10481 (hostRec "[c=ff0000]a<b".toList))).body = none := by rfl
 example : (viewServerIP ⟨1, 1, 1, 1⟩ 10480 .absent).body = none := by rfl
-example : (viewServerIP ⟨10, 1, 1, 1⟩ 10480 (.present 8 10481 "[c=ff0000]a<b".toList)).body = none := by rfl
-example : (addServerIP ⟨1, 1, 1, 1⟩ 10480 (.present 128 10481 "[c=ff0000]a<b".toList)).body = none := by rfl
-example : (addServerIP ⟨1, 1, 1, 1⟩ 10480 (.present 256 10481 "[c=ff0000]a<b".toList)).body = none := by rfl
-example : (addServerIP ⟨1, 1, 1, 1⟩ 1024 (.present 8 10481 "[c=ff0000]a<b".toList)).body = none := by rfl
+example : (viewServerIP ⟨10, 1, 1, 1⟩ 10480 (.present 8 10481 (hostRec "[c=ff0000]a<b".toList))).body = none := by rfl
+example : (addServerIP ⟨1, 1, 1, 1⟩ 10480 (.present 128 10481 (hostRec "[c=ff0000]a<b".toList))).body = none := by rfl
+example : (addServerIP ⟨1, 1, 1, 1⟩ 10480 (.present 256 10481 (hostRec "[c=ff0000]a<b".toList))).body = none := by rfl
+example : (addServerIP ⟨1, 1, 1, 1⟩ 1024 (.present 8 10481 (hostRec "[c=ff0000]a<b".toList))).body = none := by rfl
+
+/-! ## every member of the bodies
+
+`server_members`, `player_members`, `objective_members` list, for every member of the JSON documents
+in document order, the JSON name and the stored field it equals; `detail_members` the three members
+of `model.ServerDetail` (stored order, every element).  The names and their order are compared with
+the `json` tags read from the source in `facts_json_ok`; `server_spec_agrees` etc. compare the
+model's choice of stored field with the reference tables `RestSpec.serverWants` / `playerWants` /
+`objectiveWants` (written independently, by Go field name), which is what the driver's oracle checks
+the implementation's body against. -/
+
+/-- **`model.Server`, member by member** (`NewServerFromDomain`, `server.go:46-79`): the JSON
+document of a stored record `rec` is exactly this list of members — `address`/`ip`/`port` from the
+record's address, `hostname` raw, `hostname_plain = Clean`, `hostname_html = ToHTML` of it,
+`player_num = Info.NumPlayers`, `player_max = Info.MaxPlayers`, `round_num = Info.Round`,
+`round_max = Info.NumRounds`, `time_round = Info.TimeLeft`, … each stored value unchanged, and the
+two slugs `slug.Make` of `GameType` / `MapName`. -/
+theorem server_members (rec : Stored) :
+    (serverJsonOf rec).members =
+      [("address", .str (addrString rec.addr)), ("ip", .str (dottedIP rec.addr.ip)), ("port", .int rec.addr.port),
+       ("hostname", .str rec.info.hostname), ("hostname_plain", .str (Styles.clean rec.info.hostname)),
+       ("hostname_html", .str (Styles.toHTML rec.info.hostname)), ("passworded", .bool rec.info.password),
+       ("gamename", .str rec.info.gameVariant), ("gamever", .str rec.info.gameVersion),
+       ("gametype", .str rec.info.gameType), ("gametype_slug", slugAtom (Slug.make rec.info.gameType)),
+       ("mapname", .str rec.info.mapName), ("mapname_slug", slugAtom (Slug.make rec.info.mapName)),
+       ("player_num", .int rec.info.numPlayers), ("player_max", .int rec.info.maxPlayers),
+       ("round_num", .int rec.info.round), ("round_max", .int rec.info.numRounds),
+       ("time_round", .int rec.info.timeLeft), ("time_special", .int rec.info.timeSpecial),
+       ("score_swat", .int rec.info.swatScore), ("score_sus", .int rec.info.suspectsScore),
+       ("vict_swat", .int rec.info.swatWon), ("vict_sus", .int rec.info.suspectsWon),
+       ("bombs_defused", .int rec.info.bombsDefused), ("bombs_total", .int rec.info.bombsTotal),
+       ("coop_reports", .str rec.info.tocReports), ("coop_weapons", .str rec.info.weaponsSecured)] := rfl
+
+/-- the same on the struct: every member of `model.Server` equals the stored field
+(`player_num = Info.NumPlayers`, …) -/
+theorem server_fields (rec : Stored) :
+    let j := serverJsonOf rec
+    j.address = addrString rec.addr ∧ j.ip = dottedIP rec.addr.ip ∧ j.port = rec.addr.port ∧
+    j.hostname = rec.info.hostname ∧ j.hostnamePlain = Styles.clean rec.info.hostname ∧
+    j.hostnameHTML = Styles.toHTML rec.info.hostname ∧ j.passworded = rec.info.password ∧
+    j.gameName = rec.info.gameVariant ∧ j.gameVer = rec.info.gameVersion ∧ j.gameType = rec.info.gameType ∧
+    j.gameTypeSlug = Slug.make rec.info.gameType ∧ j.mapName = rec.info.mapName ∧
+    j.mapNameSlug = Slug.make rec.info.mapName ∧ j.playerNum = rec.info.numPlayers ∧
+    j.playerMax = rec.info.maxPlayers ∧ j.roundNum = rec.info.round ∧ j.roundMax = rec.info.numRounds ∧
+    j.timeLeft = rec.info.timeLeft ∧ j.timeSpecial = rec.info.timeSpecial ∧ j.swatScore = rec.info.swatScore ∧
+    j.suspectsScore = rec.info.suspectsScore ∧ j.swatWon = rec.info.swatWon ∧ j.suspectsWon = rec.info.suspectsWon ∧
+    j.bombsDefused = rec.info.bombsDefused ∧ j.bombsTotal = rec.info.bombsTotal ∧
+    j.tocReports = rec.info.tocReports ∧ j.weaponsSecured = rec.info.weaponsSecured := by
+  refine ⟨rfl, rfl, rfl, rfl, rfl, rfl, rfl, rfl, rfl, rfl, rfl, rfl, rfl, rfl, rfl, rfl, rfl, rfl, rfl, rfl, rfl, rfl,
+    rfl, rfl, rfl, rfl, rfl⟩
+
+/-- **`model.ServerPlayer`, member by member** (`NewServerPlayerFromDomain`, `server.go:106-132`):
+`team` / `coop_status` are the `String()` renderings, `coop_status_slug` the slug of the latter, the two
+`crybaby` members the stored booleans as 0/1, `vip_captures = VIPArrests`, `rd_bombs_defused =
+BombsDefused`, `sg_escapes = CaseEscapes`, `sg_kills = CaseKills`, every other member the stored field
+of the same name; `VIPEscapes2` is not reported. -/
+theorem player_members (p : Player) :
+    (playerJsonOf p).members =
+      [("name", .str p.name), ("ping", .int p.ping), ("score", .int p.score), ("team", .str (teamString p.team)),
+       ("vip", .bool p.vip), ("coop_status", .str (coopStatusString p.coopStatus)),
+       ("coop_status_slug", slugAtom (Slug.make (coopStatusString p.coopStatus))), ("kills", .int p.kills),
+       ("teamkills", .int p.teamKills), ("deaths", .int p.deaths), ("arrests", .int p.arrests),
+       ("arrested", .int p.arrested), ("vip_escapes", .int p.vipEscapes), ("vip_captures", .int p.vipArrests),
+       ("vip_rescues", .int p.vipRescues), ("vip_kills_valid", .int p.vipKillsValid),
+       ("vip_kills_invalid", .int p.vipKillsInvalid), ("rd_bombs_defused", .int p.bombsDefused),
+       ("rd_crybaby", .int (if p.bombsDetonated then 1 else 0)), ("sg_escapes", .int p.caseEscapes),
+       ("sg_kills", .int p.caseKills), ("sg_crybaby", .int (if p.caseSecured then 1 else 0))] := by
+  cases hd : p.bombsDetonated <;> cases hs : p.caseSecured <;>
+    simp [PlayerJson.members, playerJsonOf, boolToInt, hd, hs]
+
+/-- **`model.ServerObjective`** (`NewServerObjectiveFromDomain`, `server.go:140-147`) -/
+theorem objective_members (o : Objective) :
+    (objectiveJsonOf o).members =
+      [("name", .str o.name), ("status", .str (objectiveStatusString o.status)),
+       ("status_slug", slugAtom (Slug.make (objectiveStatusString o.status)))] := rfl
+
+/-- **`model.ServerDetail`** (`NewServerDetailFromDomain`, `server.go:155-174`): `info` is the
+`model.Server` of the record; `players` / `objectives` have one element per stored player /
+objective, in stored order, each made from the stored element at the same place; none of it
+depends on `Details.Info` (the copy of the info block stored inside the details). -/
+theorem detail_members (rec : Stored) :
+    (serverDetailJsonOf rec).info = serverJsonOf rec ∧
+    (serverDetailJsonOf rec).players.length = rec.players.length ∧
+    (∀ i : Nat, (serverDetailJsonOf rec).players[i]? = rec.players[i]?.map playerJsonOf) ∧
+    (serverDetailJsonOf rec).objectives.length = rec.objectives.length ∧
+    (∀ i : Nat, (serverDetailJsonOf rec).objectives[i]? = rec.objectives[i]?.map objectiveJsonOf) ∧
+    (∀ di, serverDetailJsonOf { rec with detailsInfo := di } = serverDetailJsonOf rec) := by
+  refine ⟨rfl, ?_, ?_, ?_, ?_, fun _ => rfl⟩
+  · simp [serverDetailJsonOf]
+  · intro i; simp [serverDetailJsonOf]
+  · simp [serverDetailJsonOf]
+  · intro i; simp [serverDetailJsonOf]
+
+/-- non-vacuity: a full record through `GET`, `POST`; the members a swap would exchange differ -/
+def sampleRec : Stored :=
+  { addr := ⟨⟨8, 8, 4, 4⟩, 10480⟩
+    info := { hostname := "[b]Srv".toList, hostPort := 10480, gameVariant := "SWAT 4".toList, gameVersion := "1.1".toList,
+              gameType := "VIP Escort".toList, numPlayers := 3, maxPlayers := 16, mapName := "A-Bomb Nightclub".toList,
+              password := true, round := 2, numRounds := 5, timeLeft := -7, timeSpecial := 30, swatScore := 11,
+              suspectsScore := 12, swatWon := 1, suspectsWon := 0, bombsDefused := 4, bombsTotal := 6,
+              tocReports := "24/28".toList, weaponsSecured := "17/19".toList }
+    detailsInfo := { hostname := "other".toList }
+    players := [{ name := "Al".toList, score := 5, ping := 40, team := 1, coopStatus := 2, vipArrests := 9, caseSecured := true },
+                { name := "Bo".toList, team := 7, coopStatus := -3 }]
+    objectives := [{ name := "obj_Neutralize_All_Enemies".toList, status := 0 }, { name := "x".toList, status := 9 }] }
+
+example : (viewServerIP ⟨8, 8, 4, 4⟩ 10480 (.present 8 10481 sampleRec)).status = 200 := by rfl
+example : (viewServerIP ⟨8, 8, 4, 4⟩ 10480 (.present 8 10481 sampleRec)).body =
+    some (.detail (serverDetailJsonOf sampleRec)) := by rfl
+example : (addServerIP ⟨8, 8, 4, 4⟩ 10480 (.present 8 10481 sampleRec)).body =
+    some (.server (serverJsonOf sampleRec)) := by rfl
+example : (serverJsonOf sampleRec).address = "8.8.4.4:10480".toList ∧ (serverJsonOf sampleRec).ip = "8.8.4.4".toList ∧
+    (serverJsonOf sampleRec).playerNum = 3 ∧ (serverJsonOf sampleRec).playerMax = 16 ∧
+    (serverJsonOf sampleRec).timeLeft = -7 ∧ (serverJsonOf sampleRec).passworded = true ∧
+    (serverJsonOf sampleRec).gameTypeSlug = some "vip-escort".toList ∧
+    (serverJsonOf sampleRec).mapNameSlug = some "a-bomb-nightclub".toList ∧
+    (serverJsonOf sampleRec).hostnamePlain = "Srv".toList := by decide
+example : ((serverDetailJsonOf sampleRec).players.map (·.name)) = ["Al".toList, "Bo".toList] ∧
+    ((serverDetailJsonOf sampleRec).players.map (·.team)) = ["suspects".toList, "7".toList] ∧
+    ((serverDetailJsonOf sampleRec).players.map (·.coopStatus)) = ["Healthy".toList, "-3".toList] ∧
+    ((serverDetailJsonOf sampleRec).players.map (·.coopStatusSlug)) = [some "healthy".toList, some "3".toList] ∧
+    ((serverDetailJsonOf sampleRec).players.map (·.vipArrests)) = [9, 0] ∧
+    ((serverDetailJsonOf sampleRec).players.map (·.caseSecured)) = [1, 0] := by decide
+example : ((serverDetailJsonOf sampleRec).objectives.map (·.status)) = ["In Progress".toList, "9".toList] ∧
+    ((serverDetailJsonOf sampleRec).objectives.map (·.statusSlug)) = [some "in-progress".toList, some "9".toList] := by
+  decide
+
+/-! ### the `String()` renderings -/
+
+/-- **`PlayerTeam.String()`, `PlayerCoopStatus.String()`, `ObjectiveStatus.String()`**
+(`details/player.go:17-47`, `objective.go:15-25`): the names of the defined values — note
+`TeamSwatRed` (2) is `swat` too — and the decimal numeral for every other value the record may hold. -/
+theorem enum_strings :
+    teamString 0 = "swat".toList ∧ teamString 1 = "suspects".toList ∧ teamString 2 = "swat".toList ∧
+    (∀ t : Int, (t < 0 ∨ t > 2) → teamString t = decimal t) ∧
+    coopStatusString 0 = "unknown".toList ∧ coopStatusString 1 = "Ready".toList ∧
+    coopStatusString 2 = "Healthy".toList ∧ coopStatusString 3 = "Injured".toList ∧
+    coopStatusString 4 = "Incapacitated".toList ∧
+    (∀ c : Int, (c < 0 ∨ c > 4) → coopStatusString c = decimal c) ∧
+    objectiveStatusString 0 = "In Progress".toList ∧ objectiveStatusString 1 = "Completed".toList ∧
+    objectiveStatusString 2 = "Failed".toList ∧
+    (∀ s : Int, (s < 0 ∨ s > 2) → objectiveStatusString s = decimal s) := by
+  refine ⟨rfl, rfl, rfl, ?_, rfl, rfl, rfl, rfl, rfl, ?_, rfl, rfl, rfl, ?_⟩
+  · intro t ht
+    have h1 : ¬ (t = 0 ∨ t = 2) := by omega
+    have h2 : ¬ t = 1 := by omega
+    simp only [teamString, h1, h2, if_false]
+  · intro c hc
+    have h0 : ¬ c = 0 := by omega
+    have h1 : ¬ c = 1 := by omega
+    have h2 : ¬ c = 2 := by omega
+    have h3 : ¬ c = 3 := by omega
+    have h4 : ¬ c = 4 := by omega
+    simp only [coopStatusString, h0, h1, h2, h3, h4, if_false]
+  · intro s hs
+    have h0 : ¬ s = 0 := by omega
+    have h1 : ¬ s = 1 := by omega
+    have h2 : ¬ s = 2 := by omega
+    simp only [objectiveStatusString, h0, h1, h2, if_false]
+
+/-- the slugs of the defined names (`coop_status_slug`, `status_slug`), and of a numeral: its digits -/
+theorem enum_slugs :
+    (([0, 1, 2, 3, 4] : List Int).map fun c => Slug.make (coopStatusString c)) =
+      [some "unknown".toList, some "ready".toList, some "healthy".toList, some "injured".toList,
+       some "incapacitated".toList] ∧
+    (([0, 1, 2] : List Int).map fun s => Slug.make (objectiveStatusString s)) =
+      [some "in-progress".toList, some "completed".toList, some "failed".toList] ∧
+    Slug.make (decimal (-3)) = some "3".toList ∧ Slug.make (decimal 255) = some "255".toList := by decide
+
+/-! ### the model against the reference tables
+
+`RestSpec.serverWants` etc. say, by Go field name, which stored field a member reports.  The record
+of the model as the reference reads it: `(Go field name, value)` in declaration order. -/
+
+def infoEntity (i : Info) : RestSpec.Entity :=
+  [("Hostname", .str i.hostname), ("HostPort", .int i.hostPort), ("GameVariant", .str i.gameVariant),
+   ("GameVersion", .str i.gameVersion), ("GameType", .str i.gameType), ("NumPlayers", .int i.numPlayers),
+   ("MaxPlayers", .int i.maxPlayers), ("MapName", .str i.mapName), ("Password", .bool i.password),
+   ("StatsEnabled", .bool i.statsEnabled), ("Round", .int i.round), ("NumRounds", .int i.numRounds),
+   ("TimeLeft", .int i.timeLeft), ("TimeSpecial", .int i.timeSpecial), ("SwatScore", .int i.swatScore),
+   ("SuspectsScore", .int i.suspectsScore), ("SwatWon", .int i.swatWon), ("SuspectsWon", .int i.suspectsWon),
+   ("BombsDefused", .int i.bombsDefused), ("BombsTotal", .int i.bombsTotal), ("TocReports", .str i.tocReports),
+   ("WeaponsSecured", .str i.weaponsSecured), ("Version", .str i.version)]
+
+def playerEntity (p : Player) : RestSpec.Entity :=
+  [("Name", .str p.name), ("Score", .int p.score), ("Ping", .int p.ping), ("Team", .int p.team), ("VIP", .bool p.vip),
+   ("CoopStatus", .int p.coopStatus), ("Kills", .int p.kills), ("TeamKills", .int p.teamKills), ("Deaths", .int p.deaths),
+   ("Arrests", .int p.arrests), ("Arrested", .int p.arrested), ("VIPEscapes", .int p.vipEscapes),
+   ("VIPEscapes2", .int p.vipEscapes2), ("VIPArrests", .int p.vipArrests), ("VIPRescues", .int p.vipRescues),
+   ("VIPKillsValid", .int p.vipKillsValid), ("VIPKillsInvalid", .int p.vipKillsInvalid),
+   ("BombsDefused", .int p.bombsDefused), ("BombsDetonated", .bool p.bombsDetonated), ("CaseEscapes", .int p.caseEscapes),
+   ("CaseKills", .int p.caseKills), ("CaseSecured", .bool p.caseSecured)]
+
+def objectiveEntity (o : Objective) : RestSpec.Entity := [("Name", .str o.name), ("Status", .int o.status)]
+
+/-- the value of a member of the model's document, as a stored field value -/
+def fieldOfAtom : JAtom → Option RestSpec.Field
+  | .str s => some (.str s)
+  | .int n => some (.int n)
+  | .bool b => some (.bool b)
+  | .unmodelled => none
+
+/-- what the reference table asks of one member, evaluated on the model's value `a` of it: a raw
+member is the stored field; a flag is the stored boolean as 0/1; a derived member is derived from
+the field the table names (`Styles.clean` / `Styles.toHTML` / `Slug.make` / the `String()` rendering and its slug) -/
+def agrees (ip : IP4) (port : Int) (e : RestSpec.Entity) (w : RestSpec.Want) (a : JAtom) : Prop :=
+  match w with
+  | .address => a = .str (addrString ⟨ip, port⟩)
+  | .ip => a = .str (dottedIP ip)
+  | .port => a = .int port
+  | .same f => fieldOfAtom a = e.get f ∧ (e.get f).isSome
+  | .flag f => ∃ b, e.get f = some (.bool b) ∧ a = .int (if b then 1 else 0)
+  | .plainOf f => ∃ s, e.get f = some (.str s) ∧ a = .str (Styles.clean s)
+  | .htmlOf f => ∃ s, e.get f = some (.str s) ∧ a = .str (Styles.toHTML s)
+  | .slugOf f => ∃ s, e.get f = some (.str s) ∧ a = slugAtom (Slug.make s)
+  | .enumName t f => ∃ v, e.get f = some (.int v) ∧
+      ((t = RestSpec.teamNames ∧ a = .str (teamString v)) ∨ (t = RestSpec.coopStatusNames ∧ a = .str (coopStatusString v)) ∨
+       (t = RestSpec.objectiveStatusNames ∧ a = .str (objectiveStatusString v)))
+  | .enumSlug t f => ∃ v, e.get f = some (.int v) ∧
+      ((t = RestSpec.coopStatusNames ∧ a = slugAtom (Slug.make (coopStatusString v))) ∨
+       (t = RestSpec.objectiveStatusNames ∧ a = slugAtom (Slug.make (objectiveStatusString v))))
+
+/-- all members of a document against a table: same names in the same order, every value as the table asks -/
+def agreesAll (ip : IP4) (port : Int) (e : RestSpec.Entity) :
+    List (String × RestSpec.Want) → List (String × JAtom) → Prop
+  | [], [] => True
+  | (n, w) :: ws, (n', a) :: ms => n = n' ∧ agrees ip port e w a ∧ agreesAll ip port e ws ms
+  | _, _ => False
+
+/-- **The model reports, member by member, the stored field the reference table names**
+(`model.Server`): `RestSpec.serverWants` and the model's document have the same member names in the
+same order, and for each the model's value is the stored field of that Go name (`player_num` ↦
+`NumPlayers`, `round_max` ↦ `NumRounds`, `time_round` ↦ `TimeLeft`, …), resp. derived from it. -/
+theorem server_spec_agrees (rec : Stored) :
+    agreesAll rec.addr.ip rec.addr.port (infoEntity rec.info) RestSpec.serverWants (serverJsonOf rec).members := by
+  simp only [RestSpec.serverWants, ServerJson.members, serverJsonOf, agreesAll, agrees]
+  repeat' (first | exact rfl | exact ⟨rfl, rfl⟩ | exact ⟨_, rfl, rfl⟩ | constructor)
+
+/-- the same for `model.ServerPlayer` against `RestSpec.playerWants` -/
+theorem player_spec_agrees (ip : IP4) (port : Int) (p : Player) :
+    agreesAll ip port (playerEntity p) RestSpec.playerWants (playerJsonOf p).members := by
+  simp only [RestSpec.playerWants, PlayerJson.members, playerJsonOf, agreesAll, agrees]
+  repeat' (first
+    | exact rfl | exact ⟨rfl, rfl⟩ | exact ⟨_, rfl, rfl⟩
+    | exact ⟨_, rfl, .inl ⟨trivial, rfl⟩⟩ | exact ⟨_, rfl, .inr (.inl ⟨trivial, rfl⟩)⟩
+    | exact ⟨_, rfl, atom_boolToInt _⟩
+    | constructor)
+
+/-- the same for `model.ServerObjective` against `RestSpec.objectiveWants` -/
+theorem objective_spec_agrees (ip : IP4) (port : Int) (o : Objective) :
+    agreesAll ip port (objectiveEntity o) RestSpec.objectiveWants (objectiveJsonOf o).members := by
+  simp only [RestSpec.objectiveWants, ObjectiveJson.members, objectiveJsonOf, agreesAll, agrees]
+  repeat' (first
+    | exact rfl | exact ⟨rfl, rfl⟩ | exact ⟨_, rfl, rfl⟩
+    | exact ⟨_, rfl, .inr (.inr ⟨trivial, rfl⟩)⟩ | exact ⟨_, rfl, .inr ⟨trivial, rfl⟩⟩
+    | constructor)
+
+/-! ## the listing (`GET /api/servers`) -/
+
+/-- the six filters of the form, read as one condition on a record's `details.Info` -/
+def formMatch (f : ListForm) (i : Info) : Bool :=
+  (f.gameVariant.isEmpty || decide (i.gameVariant = f.gameVariant)) &&
+  (f.gameVer.isEmpty || decide (i.gameVersion = f.gameVer)) &&
+  (f.gameType.isEmpty || decide (i.gameType = f.gameType)) &&
+  (!f.hidePassworded || !i.password) &&
+  (!f.hideFull || decide (i.numPlayers ≠ i.maxPlayers)) &&
+  (!f.hideEmpty || decide (i.numPlayers > 0))
+
+/-- `prepareQuery` + `query.Match` is that condition: an empty string parameter filters nothing,
+`nopassworded` keeps the servers without a password, `nofull` those with `NumPlayers ≠ MaxPlayers`,
+`noempty` those with `NumPlayers > 0` -/
+theorem queryMatch_prepareQuery (f : ListForm) (i : Info) :
+    queryMatch (prepareQuery f) i = formMatch f i := by
+  unfold queryMatch prepareQuery formMatch
+  simp only [List.all_append]
+  congr 1
+  · congr 1
+    · congr 1
+      · congr 1
+        · congr 1
+          · cases h : f.gameVariant <;> simp [RFilter.matches]
+          · cases h : f.gameVer <;> simp [RFilter.matches]
+        · cases h : f.gameType <;> simp [RFilter.matches]
+      · cases f.hidePassworded <;> cases hp : i.password <;> simp [RFilter.matches, hp]
+    · cases f.hideFull <;> simp [RFilter.matches]
+  · cases f.hideEmpty <;> simp [RFilter.matches]
+
+/-- **The listing: status from a fixed table, every element the stored data.**  `GET /api/servers`
+answers 400 (without a body) exactly when one of the three flags is not a spelling
+`strconv.ParseBool` accepts, else 200; never 5xx; it never changes the store; the body of a 200 is
+`NewServerFromDomain` (`serverJsonOf`, all 27 members: `server_members`) of exactly the records that
+have the `info` status, were refreshed at or after `now - liveness`, and pass the form's filters
+(`formMatch`) — in registry order here, in the iteration order of a Go map in the code
+(`pkg/slice.Intersection`), so: up to a permutation. -/
+theorem list_body_full (now liveness : Int) (q : ListQuery) (recs : List Listed) :
+    ((listServers now liveness q recs).status = 200 ∨ (listServers now liveness q recs).status = 400) ∧
+    (listServers now liveness q recs).status < 500 ∧
+    (listServers now liveness q recs).effect = .none ∧
+    ((listServers now liveness q recs).status = 400 ↔ bindListQuery q = none) ∧
+    ((listServers now liveness q recs).status ≠ 200 → (listServers now liveness q recs).body = none) ∧
+    (∀ f, bindListQuery q = some f →
+      (listServers now liveness q recs).body =
+        some (.list ((recs.filter fun l => l.selected now liveness && formMatch f l.server.info).map
+          fun l => serverJsonOf l.server))) := by
+  unfold listServers
+  cases hb : bindListQuery q with
+  | none => simp
+  | some f =>
+    refine ⟨.inl rfl, by show (200 : Nat) < 500; omega, rfl, by simp [listExecute], by simp [listExecute], ?_⟩
+    intro f' hf'
+    cases hf'
+    simp only [listExecute, List.filter_filter, queryMatch_prepareQuery, Bool.and_comm]
+
+/-- every element of a listing is the document of a listed record that was selected and matches -/
+theorem list_elements (now liveness : Int) (q : ListQuery) (recs : List Listed) (l : List ServerJson)
+    (h : (listServers now liveness q recs).body = some (.list l)) (j : ServerJson) (hj : j ∈ l) :
+    ∃ f x, bindListQuery q = some f ∧ x ∈ recs ∧ x.selected now liveness = true ∧
+      formMatch f x.server.info = true ∧ j = serverJsonOf x.server := by
+  cases hb : bindListQuery q with
+  | none => simp [listServers, hb] at h
+  | some f =>
+    have := (list_body_full now liveness q recs).2.2.2.2.2 f hb
+    rw [this] at h
+    cases h
+    simp only [List.mem_map, List.mem_filter, Bool.and_eq_true] at hj
+    obtain ⟨x, ⟨hx, hs, hm⟩, rfl⟩ := hj
+    exact ⟨f, x, rfl, hx, hs, hm, rfl⟩
+
+/-- the flags: `strconv.ParseBool`'s spellings, the empty value and an absent parameter; anything else is an error -/
+theorem bindBool_table :
+    (["1", "t", "T", "TRUE", "true", "True"].map fun s => bindBool (some (Bytes.ofAscii s))) = List.replicate 6 (some true) ∧
+    (["0", "f", "F", "FALSE", "false", "False", ""].map fun s => bindBool (some (Bytes.ofAscii s))) =
+      List.replicate 7 (some false) ∧
+    bindBool none = some false ∧
+    (["yes", "2", "tRUE", " 1", "on", "-1", "TRUE "].map fun s => bindBool (some (Bytes.ofAscii s))) = List.replicate 7 none := by
+  decide
+
+/-- non-vacuity: three records — listed and matching; listed but full; not refreshed in time — and a bad flag -/
+def sampleFull : Stored :=
+  { sampleRec with addr := ⟨⟨8, 8, 8, 8⟩, 10480⟩, info := { sampleRec.info with numPlayers := 16 } }
+
+def sampleListed : List Listed :=
+  [⟨4, some (-5), sampleRec⟩,
+   ⟨4 ||| 8, some 0, sampleFull⟩,
+   ⟨4, some (-181), { sampleRec with addr := ⟨⟨9, 9, 9, 9⟩, 10480⟩ }⟩,
+   ⟨8, some 0, { sampleRec with addr := ⟨⟨7, 7, 7, 7⟩, 10480⟩ }⟩]
+
+example : (listServers 0 180 {} sampleListed).body =
+    some (.list [serverJsonOf sampleRec, serverJsonOf sampleFull]) := by decide
+example : (listServers 0 180 { hideFull := some [49], gameType := some "VIP Escort".toList } sampleListed).body =
+    some (.list [serverJsonOf sampleRec]) := by decide
+example : (listServers 0 180 { gameType := some "CO-OP".toList } sampleListed).body = some (.list []) := by decide
+example : (listServers 0 180 { hideEmpty := some (Bytes.ofAscii "yes") } sampleListed).status = 400 := by decide
 
 /-! ## status bits and the columns of the reference table
 
@@ -462,7 +859,7 @@ the columns `known / hasDetails / discoveryPending / noPort` of `RestSpec.Known`
 /-- **The columns are exactly these bit tests**, for every status word: `hasDetails` ⇔ bit 8,
 `discoveryPending` ⇔ bit 128 or bit 16, `noPort` ⇔ bit 256; a stored record is `known`, a missing
 one has every column false. -/
-theorem knownOf_spec (w : Nat) (qp : Int) (h : List Char) :
+theorem knownOf_spec (w : Nat) (qp : Int) (h : Stored) :
     (knownOf (.present w qp h)).known = true ∧
     ((knownOf (.present w qp h)).hasDetails = true ↔ w &&& 8 ≠ 0) ∧
     ((knownOf (.present w qp h)).discoveryPending = true ↔ (w &&& 128 ≠ 0 ∨ w &&& 16 ≠ 0)) ∧
@@ -478,7 +875,7 @@ theorem knownOf_spec (w : Nat) (qp : Int) (h : List Char) :
 `HasDiscoveryStatus(ds.Details)` = `(w & 8) == 8` (`addserver.go:116`, `getserver.go:43`),
 `HasAnyDiscoveryStatus(ds.PortRetry | ds.DetailsRetry)` = `(w & (128|16)) > 0` (`addserver.go:122`),
 `HasDiscoveryStatus(ds.NoPort)` = `(w & 256) == 256` (`addserver.go:127`). -/
-theorem knownOf_go (w : Nat) (qp : Int) (h : List Char) :
+theorem knownOf_go (w : Nat) (qp : Int) (h : Stored) :
     ((knownOf (.present w qp h)).hasDetails = true ↔ w &&& 8 = 8) ∧
     ((knownOf (.present w qp h)).discoveryPending = true ↔ w &&& (128 ||| 16) > 0) ∧
     ((knownOf (.present w qp h)).noPort = true ↔ w &&& 256 = 256) := by
@@ -486,12 +883,12 @@ theorem knownOf_go (w : Nat) (qp : Int) (h : List Char) :
   exact ⟨h1.trans (and_two_pow_eq_self_iff w 3).symm, h2.trans (and_or_pos_iff w 128 16).symm,
     h3.trans (and_two_pow_eq_self_iff w 8).symm⟩
 
-/-- **One status bit at a time** (`status.go:12-22`), for any query port and hostname: `Details`
+/-- **One status bit at a time** (`status.go:12-22`), for any query port and stored record: `Details`
 (8) sets the `hasDetails` column only (`addserver.go:116`, `getserver.go:43`), `PortRetry` (128)
 and `DetailsRetry` (16) each the `discoveryPending` column only (`addserver.go:122`), `NoPort` (256)
 the `noPort` column only (`addserver.go:127`); `New`, `Master`, `Info`, `NoDetails`, `Port` and the
 empty word set none (default branch, `addserver.go:133`); a missing record is not even `known`. -/
-theorem knownOf_bits (qp : Int) (h : List Char) :
+theorem knownOf_bits (qp : Int) (h : Stored) :
     knownOf (.present 8 qp h) = ⟨true, true, false, false⟩ ∧       -- Details
     knownOf (.present 128 qp h) = ⟨true, false, true, false⟩ ∧     -- PortRetry: pending, addserver.go:122
     knownOf (.present 16 qp h) = ⟨true, false, true, false⟩ ∧      -- DetailsRetry: pending, addserver.go:122
@@ -507,27 +904,27 @@ theorem knownOf_bits (qp : Int) (h : List Char) :
 
 -- the same one by one, and words with several bits: the columns are independent of each other and
 -- of the five bits the handlers do not look at; the table then applies its own priority
-example : knownOf (.present 8 10481 []) = ⟨true, true, false, false⟩ := by decide       -- status.go:16 Details
-example : knownOf (.present 128 10481 []) = ⟨true, false, true, false⟩ := by decide     -- status.go:20 PortRetry
-example : knownOf (.present 16 10481 []) = ⟨true, false, true, false⟩ := by decide      -- status.go:17 DetailsRetry
-example : knownOf (.present 256 10481 []) = ⟨true, false, false, true⟩ := by decide     -- status.go:21 NoPort
-example : knownOf (.present 1 10481 []) = ⟨true, false, false, false⟩ := by decide      -- status.go:13 New
-example : knownOf (.present 2 10481 []) = ⟨true, false, false, false⟩ := by decide      -- status.go:14 Master
-example : knownOf (.present 4 10481 []) = ⟨true, false, false, false⟩ := by decide      -- status.go:15 Info
-example : knownOf (.present 32 10481 []) = ⟨true, false, false, false⟩ := by decide     -- status.go:18 NoDetails
-example : knownOf (.present 64 10481 []) = ⟨true, false, false, false⟩ := by decide     -- status.go:19 Port
+example : knownOf (.present 8 10481 (hostRec [])) = ⟨true, true, false, false⟩ := by decide       -- status.go:16 Details
+example : knownOf (.present 128 10481 (hostRec [])) = ⟨true, false, true, false⟩ := by decide     -- status.go:20 PortRetry
+example : knownOf (.present 16 10481 (hostRec [])) = ⟨true, false, true, false⟩ := by decide      -- status.go:17 DetailsRetry
+example : knownOf (.present 256 10481 (hostRec [])) = ⟨true, false, false, true⟩ := by decide     -- status.go:21 NoPort
+example : knownOf (.present 1 10481 (hostRec [])) = ⟨true, false, false, false⟩ := by decide      -- status.go:13 New
+example : knownOf (.present 2 10481 (hostRec [])) = ⟨true, false, false, false⟩ := by decide      -- status.go:14 Master
+example : knownOf (.present 4 10481 (hostRec [])) = ⟨true, false, false, false⟩ := by decide      -- status.go:15 Info
+example : knownOf (.present 32 10481 (hostRec [])) = ⟨true, false, false, false⟩ := by decide     -- status.go:18 NoDetails
+example : knownOf (.present 64 10481 (hostRec [])) = ⟨true, false, false, false⟩ := by decide     -- status.go:19 Port
 example : knownOf .absent = ⟨false, false, false, false⟩ := by decide                   -- repositories.ErrServerNotFound
-example : knownOf (.present (8 ||| 128 ||| 256) 10481 []) = ⟨true, true, true, true⟩ := by decide
-example : knownOf (.present (1 ||| 2 ||| 4 ||| 32 ||| 64) 10481 []) = ⟨true, false, false, false⟩ := by decide
-example : knownOf (.present 511 10481 []) = ⟨true, true, true, true⟩ := by decide
+example : knownOf (.present (8 ||| 128 ||| 256) 10481 (hostRec [])) = ⟨true, true, true, true⟩ := by decide
+example : knownOf (.present (1 ||| 2 ||| 4 ||| 32 ||| 64) 10481 (hostRec [])) = ⟨true, false, false, false⟩ := by decide
+example : knownOf (.present 511 10481 (hostRec [])) = ⟨true, true, true, true⟩ := by decide
 -- priority among the columns is the table's and the handler's alike (addserver.go:116 before :122 before :127)
-example : (addServerIP ⟨1, 1, 1, 1⟩ 10480 (.present (8 ||| 128 ||| 256) 10481 [])).status = 200 := by rfl
+example : (addServerIP ⟨1, 1, 1, 1⟩ 10480 (.present (8 ||| 128 ||| 256) 10481 (hostRec []))).status = 200 := by rfl
 example : RestSpec.addTable true ⟨true, true, true, true⟩ = 200 := by decide
-example : (addServerIP ⟨1, 1, 1, 1⟩ 10480 (.present (16 ||| 256) 10481 [])).status = 202 := by rfl
+example : (addServerIP ⟨1, 1, 1, 1⟩ 10480 (.present (16 ||| 256) 10481 (hostRec []))).status = 202 := by rfl
 example : RestSpec.addTable true ⟨true, false, true, true⟩ = 202 := by decide
-example : (addServerIP ⟨1, 1, 1, 1⟩ 10480 (.present (256 ||| 64) 10481 [])).status = 410 := by rfl
+example : (addServerIP ⟨1, 1, 1, 1⟩ 10480 (.present (256 ||| 64) 10481 (hostRec []))).status = 410 := by rfl
 example : RestSpec.addTable true ⟨true, false, false, true⟩ = 410 := by decide
-example : (viewServerIP ⟨1, 1, 1, 1⟩ 10480 (.present (16 ||| 128 ||| 256) 10481 [])).status = 204 := by rfl
+example : (viewServerIP ⟨1, 1, 1, 1⟩ 10480 (.present (16 ||| 128 ||| 256) 10481 (hostRec []))).status = 204 := by rfl
 
 /-! ## facts read from the source -/
 
@@ -550,5 +947,95 @@ theorem facts_ok :
        "(?i)\\[c[^\\w]([a-f0-9]{6})\\]([^\\[]+)", "<span style=\"color:#$1;\">$2</span>",
        "(?i)\\[(?:\\\\)?c(?:[^\\w][^\\[\\]]*)?\\]", ""] := by
   refine ⟨rfl, rfl, rfl, rfl, rfl, rfl, rfl, rfl, rfl, rfl, rfl, rfl, rfl, rfl⟩
+
+/-- a member's JSON type as Go declares it (`uint8` counts as `int`: the model holds the number) -/
+def kindOf : JAtom → String
+  | .str _ => "string"
+  | .unmodelled => "string"
+  | .int _ => "int"
+  | .bool _ => "bool"
+
+/-- **The JSON documents have exactly the members the source declares, in that order, with those
+types**: the `json` struct tags of `model.Server`, `model.ServerPlayer`, `model.ServerObjective`,
+`model.ServerDetail` (`internal/rest/model/server.go`), read by reflection on every run, are these
+literal lists, and the model's documents (`ServerJson.members` …) carry exactly these names in this
+order with values of the declared kinds — a renamed, added, dropped or reordered member breaks this
+theorem.  Likewise the `form` tags of `api.ServerFilterForm` (the listing's parameters), and the Go
+field lists of `details.Info` / `Player` / `Objective` by which the case lines and the reference
+tables (`RestSpec.infoFieldNames` …) address the stored record. -/
+theorem facts_json_ok :
+    Facts.restServerJsonTags =
+      ["address", "ip", "port", "hostname", "hostname_plain", "hostname_html", "passworded", "gamename", "gamever",
+       "gametype", "gametype_slug", "mapname", "mapname_slug", "player_num", "player_max", "round_num", "round_max",
+       "time_round", "time_special", "score_swat", "score_sus", "vict_swat", "vict_sus", "bombs_defused",
+       "bombs_total", "coop_reports", "coop_weapons"] ∧
+    (∀ s : ServerJson, s.members.map (·.1) = Facts.restServerJsonTags) ∧
+    (∀ s : ServerJson, s.members.map (fun m => kindOf m.2) = Facts.restServerKinds) ∧
+    Facts.restServerPlayerJsonTags =
+      ["name", "ping", "score", "team", "vip", "coop_status", "coop_status_slug", "kills", "teamkills", "deaths",
+       "arrests", "arrested", "vip_escapes", "vip_captures", "vip_rescues", "vip_kills_valid", "vip_kills_invalid",
+       "rd_bombs_defused", "rd_crybaby", "sg_escapes", "sg_kills", "sg_crybaby"] ∧
+    (∀ p : PlayerJson, p.members.map (·.1) = Facts.restServerPlayerJsonTags) ∧
+    (∀ p : PlayerJson, p.members.map (fun m => kindOf m.2) =
+      Facts.restServerPlayerKinds.map fun k => if k = "uint8" then "int" else k) ∧
+    Facts.restServerObjectiveJsonTags = ["name", "status", "status_slug"] ∧
+    (∀ o : ObjectiveJson, o.members.map (·.1) = Facts.restServerObjectiveJsonTags) ∧
+    (∀ o : ObjectiveJson, o.members.map (fun m => kindOf m.2) = Facts.restServerObjectiveKinds) ∧
+    Facts.restServerDetailJsonTags = ["info", "players", "objectives"] ∧
+    detailMemberNames = Facts.restServerDetailJsonTags ∧ RestSpec.detailMembers = Facts.restServerDetailJsonTags ∧
+    Facts.restServerDetailKinds = ["struct", "slice", "slice"] ∧
+    RestSpec.serverWants.map (·.1) = Facts.restServerJsonTags ∧
+    RestSpec.playerWants.map (·.1) = Facts.restServerPlayerJsonTags ∧
+    RestSpec.objectiveWants.map (·.1) = Facts.restServerObjectiveJsonTags ∧
+    Facts.restFilterFormTags = ["gamevariant", "gamever", "gametype", "nopassworded", "nofull", "noempty"] ∧
+    Facts.restFilterFormKinds = ["string", "string", "string", "bool", "bool", "bool"] ∧
+    RestSpec.infoFieldNames = Facts.infoFieldNames ∧ RestSpec.infoFieldKinds = Facts.infoFieldKinds ∧
+    RestSpec.playerFieldNames = Facts.playerFieldNames ∧ RestSpec.playerFieldKinds = Facts.playerFieldKinds ∧
+    RestSpec.objectiveFieldNames = Facts.objectiveFieldNames ∧ RestSpec.objectiveFieldKinds = Facts.objectiveFieldKinds ∧
+    (∀ i : Info, (infoEntity i).map (·.1) = RestSpec.infoFieldNames) ∧
+    (∀ p : Player, (playerEntity p).map (·.1) = RestSpec.playerFieldNames) ∧
+    (∀ o : Objective, (objectiveEntity o).map (·.1) = RestSpec.objectiveFieldNames) ∧
+    Facts.restDsInfo = dsInfo := by
+  refine ⟨rfl, fun _ => rfl, ?_, rfl, fun _ => rfl, ?_, rfl, fun _ => rfl, ?_, rfl, rfl, rfl, rfl, rfl, rfl, rfl, rfl, rfl,
+    rfl, rfl, rfl, rfl, rfl, rfl, fun _ => rfl, fun _ => rfl, fun _ => rfl, rfl⟩
+  · intro s
+    cases h1 : s.gameTypeSlug <;> cases h2 : s.mapNameSlug <;> simp [ServerJson.members, kindOf, slugAtom, h1, h2, Facts.restServerKinds]
+  · intro p
+    cases h1 : p.coopStatusSlug <;> simp [PlayerJson.members, kindOf, slugAtom, h1, Facts.restServerPlayerKinds]
+  · intro o
+    cases h1 : o.statusSlug <;> simp [ObjectiveJson.members, kindOf, slugAtom, h1, Facts.restServerObjectiveKinds]
+
+/-- the integers `-2 … 8`, the sample of values whose `String()` the extractor records -/
+def enumSample : List Int := [-2, -1, 0, 1, 2, 3, 4, 5, 6, 7, 8]
+
+/-- **The `String()` methods as compiled**: for the values -2..8 the three methods of the source
+return what `teamString`, `coopStatusString`, `objectiveStatusString` compute (names inside the
+defined range, numerals outside on both sides). -/
+theorem facts_enum_ok :
+    Facts.restTeamStrings.map String.toList = enumSample.map teamString ∧
+    Facts.restCoopStatusStrings.map String.toList = enumSample.map coopStatusString ∧
+    Facts.restObjectiveStatusStrings.map String.toList = enumSample.map objectiveStatusString ∧
+    RestSpec.teamNames.all (fun p => teamString p.1 == p.2.toList) = true ∧
+    RestSpec.coopStatusNames.all (fun p => coopStatusString p.1 == p.2.toList) = true ∧
+    RestSpec.objectiveStatusNames.all (fun p => objectiveStatusString p.1 == p.2.toList) = true := by
+  decide
+
+/-- **`slug.Make` as the REST model calls it, character by character**: for every code point `c`
+of Latin-1 the slug of the game type `x<c>y` computed by the real `NewServerFromDomain` (recorded on
+every run) is what `Slug.make` computes — this covers `enSub`/`defaultSub` (`&`, `@`, the quotes),
+`unidecode`'s Latin-1 table as far as it survives lower-casing and the replacement of
+non-authorized characters, and the handling of separators; likewise for the dashes U+2012..U+2015,
+U+2019 and two astral code points, and for whole strings (trimming of white space and of `-`/`_` at
+the ends, collapsing of runs, no length limit).  The table has 128 ASCII-only entries. -/
+theorem slug_facts_ok :
+    (List.range 256).map (fun c => Slug.make ['x', Char.ofNat c, 'y']) =
+      Facts.restSlugLatin1.map (fun s => some s.toList) ∧
+    ([0x2012, 0x2013, 0x2014, 0x2015, 0x2019, 0x10000, 0x1F600].map fun c => Slug.make ['x', Char.ofNat c, 'y']) =
+      Facts.restSlugSpecial.map (fun s => some s.toList) ∧
+    Facts.restSlugProbes.map (fun s => Slug.make s.toList) = Facts.restSlugProbeResults.map (fun s => some s.toList) ∧
+    Slug.unidecodeLatin1.length = 128 ∧
+    Slug.unidecodeLatin1.all (fun s => s.toList.all fun c => c.toNat < 128) = true ∧
+    Slug.make ['x', Char.ofNat 0x100, 'y'] = none ∧ Slug.make ['x', Char.ofNat 0xFFFD, 'y'] = none := by
+  refine ⟨Slug.slug_latin1, by decide, Slug.slug_probes, Slug.slug_table_shape.1, Slug.slug_table_shape.2, by decide, by decide⟩
 
 end Swat4.C17
